@@ -42,3 +42,11 @@ Fixpoint pub_dump (v : pyval) : result (list byte) :=
   | POther _ => Raise TypeError
   end.
 End Pub.
+
+(* the published frame: 4-byte big-endian length of the body, one flag byte (1 = body is a zlib stream, only when the sender compresses
+   and the payload is strictly longer than 3000 bytes), the body, a newline *)
+Definition pub_frame (zlib : list byte -> list byte) (compressing : bool) (payload : list byte) : result (list byte) :=
+  let flag := compressing && (3000 <? nlen payload) in
+  let body := if flag then zlib payload else payload in
+  if nlen body <? 4294967296 then Ok (be4 (nlen body) ++ [b_of (if flag then 1 else 0)] ++ body ++ [b_of 10])
+  else Raise StructError.
